@@ -53,8 +53,11 @@ def _locate_require_file(p, file_path, lua_path=None):
             lua_path = DEFAULT_LUA_PATH
     for lookup_p in lua_path.split(';'):
         candidate = lookup_p.replace('?', p)
-        if not candidate.startswith(os.path.sep):
-            candidate = os.path.join(rel_path_base, candidate)
+        if not lookup_p.startswith(os.path.sep):
+            # (A relative entry stays relative to the requiring file even
+            # when the substitution makes it begin with a path separator,
+            # as "?/init.lua" does for an empty require string.)
+            candidate = rel_path_base + os.path.sep + candidate
         if os.path.isfile(candidate):
             return candidate
     return None
